@@ -35,7 +35,8 @@ import common as H
 import mut
 from common import Tree, TypedTree, Node
 
-COPY_OPS = ("addnode", "addtree", "copyto", "treecopy", "nodecopy")
+COPY_OPS = ("addnode", "addtree", "copyto", "treecopy", "nodecopy", "shortnode", "shorttree")
+SHORTCUTS = ("append_child", "prepend_child", "prepend_sibling", "append_sibling")
 DEFAULT_KIND = mut.DEFAULT_KIND
 
 
@@ -144,7 +145,7 @@ def name_of(w, n):
 # ---------------------------------------------------------------------------
 # the copy oracle
 # ---------------------------------------------------------------------------
-def expected_copy(w: mut.World, op, s0: Snap):
+def expected_copy(w: mut.World, op, s0: Snap, plan=None):
     """What the property statement says a successful copy operation does:
     (target tree index or None for a new tree, target parent object or None, [(source node, deep, topkind)],
      `before` argument) where topkind = ("fixed", kind) | ("keep",)."""
@@ -166,6 +167,16 @@ def expected_copy(w: mut.World, op, s0: Snap):
         tk = ("fixed", DEFAULT_KIND if typed(ti) else None)
         dp = True if deep is None else bool(deep)
         return ti, w.parent_ref(ti, p), [(c, dp, tk) for c in s0.get(w.trees[sti]._root).ch], before
+    if k in ("shortnode", "shorttree"):
+        nn, p, before, kind = plan
+        ti = op[1]
+        par = w.trees[ti]._root if p == 0 else w.raw(p)
+        if k == "shortnode":
+            tk = ("fixed", (kind or DEFAULT_KIND) if typed(ti) else None)
+            return ti, par, [(w.raw(op[5]), bool(op[6]), tk)], before
+        tk = ("fixed", DEFAULT_KIND if typed(ti) else None)
+        dp = True if op[5] is None else bool(op[5])
+        return ti, par, [(c, dp, tk) for c in s0.get(w.trees[op[4]]._root).ch], before
     if k == "treecopy":
         return None, None, [(c, True, ("keep",)) for c in s0.get(w.trees[op[1]]._root).ch], None
     if k == "nodecopy":
@@ -190,7 +201,7 @@ def copy_oracle(w: mut.World, step, s0: Snap, s1: Snap):
             if d:
                 return f"copy: the failed {op[0]} changed {name_of(w, r0.node)}: {d[0]}", info
         return None, info
-    exp = expected_copy(w, op, s0)
+    exp = expected_copy(w, op, s0, step.get("plan"))
     ti, parent, sources, before = exp
     new_objs = [w.raw(i) for i in step["new_ids"]]
     new_set = {id(n) for n in new_objs}
@@ -231,7 +242,7 @@ def copy_oracle(w: mut.World, step, s0: Snap, s1: Snap):
     pairs = []
     errs = []
     d47 = []
-    explicit_kind = op[0] == "addnode" and op[6] is not None
+    explicit_kind = (op[0] == "addnode" and op[6] is not None) or (op[0] == "shortnode" and step["plan"][3] is not None)
 
     def pair(S, N, top, topkind, deep, par):
         r = s0.get(S)
@@ -293,7 +304,8 @@ def copy_oracle(w: mut.World, step, s0: Snap, s1: Snap):
     info["pairs"] = pairs
     info["d47"] = d47
     info["tree"] = ti
-    info["same_tree"] = op[0] in ("addnode", "addtree", "copyto") and (op[3] if op[0] != "copyto" else op[1]) == ti
+    info["same_tree"] = ((op[0] in ("addnode", "addtree", "copyto") and (op[3] if op[0] != "copyto" else op[1]) == ti)
+                         or (op[0] in ("shortnode", "shorttree") and op[4] == ti))
     info["tops"] = [(S, N) for (S, _, _), N in zip(sources, tops)]
     return None, info
 
@@ -365,6 +377,67 @@ def independence_oracle(w: mut.World, step, s0: Snap, s1: Snap, links):
 
 
 # ---------------------------------------------------------------------------
+# the four shortcuts with a NODE or a TREE argument (copies made through append_child / prepend_child /
+# prepend_sibling / append_sibling).  Not ops of mut.py; executed here, and rendered for the model as the
+# add_child call they are documented to be:  OAddNode / OAddTree with the parent and `before` read off the live tree
+#     ["shortnode", ti, n, HOW, sti, src, DEEP]        node n of tree ti . HOW (node src of tree sti, deep=DEEP)
+#     ["shorttree", ti, n, HOW, sti, DEEP]             node n of tree ti . HOW (tree sti, deep=DEEP)
+# ---------------------------------------------------------------------------
+def shortcut_plan(w: mut.World, op):
+    """-> (node object, parent ref p, BEFORE value in history form, explicit kind or None)"""
+    ti, n, how = op[1], op[2], op[3]
+    nn = w.live_node(n, ti)
+    if nn is None:
+        raise mut.NotLive()
+    typed = isinstance(w.trees[ti], TypedTree)
+    if how in ("append_child", "prepend_child"):
+        ch = list(nn._children or ())
+        before = {"n": w.rel(ch[0])} if (how == "prepend_child" and ch) else None
+        return nn, n, before, None
+    par = nn._parent
+    p = 0 if par is w.trees[ti]._root else w.rel(par)
+    sibs = list(par._children or ())
+    i = next(k for k, c in enumerate(sibs) if c is nn)
+    if how == "prepend_sibling":
+        before = {"n": n}
+    else:
+        before = {"n": w.rel(sibs[i + 1])} if i + 1 < len(sibs) else None
+    return nn, p, before, (kind_of(nn) if typed else None)
+
+
+def execute7(w: mut.World, op):
+    """like mut.execute for the ops of this module; falls back to mut.execute"""
+    if op[0] not in ("shortnode", "shorttree"):
+        return mut.execute(w, op)
+    how = op[3]
+    if how not in SHORTCUTS:
+        raise mut.NotLive()
+    nn, p, before, kind = shortcut_plan(w, op)
+    ti = op[1]
+    if op[0] == "shortnode":
+        _, _, _, _, sti, src, deep = op
+        sn = w.live_node(src, sti)
+        if sn is None:
+            raise mut.NotLive()
+        arg = sn
+        coq = (f"(OAddNode {ti} {p} {sti} {src} None {mut.coq_kind(kind)} {mut.coq_before(before)} {mut.coq_obool(deep)})")
+    else:
+        _, _, _, _, sti, deep = op
+        st = w.tree(sti)
+        if st is None:
+            raise mut.NotLive()
+        arg = st
+        coq = f"(OAddTree {ti} {p} {sti} {mut.coq_before(before)} {mut.coq_obool(deep)})"
+    kw = {} if deep is None else {"deep": deep}
+
+    def thunk():
+        r = getattr(nn, how)(arg, **kw)
+        return [] if r is None else [w.rel(r)]
+
+    return thunk, coq, False
+
+
+# ---------------------------------------------------------------------------
 # replay with the C07 oracles
 # ---------------------------------------------------------------------------
 def replay7(hist, *, check_from=0) -> mut.Run:
@@ -379,7 +452,8 @@ def replay7(hist, *, check_from=0) -> mut.Run:
         alloc0 = w.allocated()
         ntrees0 = len(w.trees)
         try:
-            thunk, coq, _ = mut.execute(w, op)
+            plan = shortcut_plan(w, op) if op[0] in ("shortnode", "shorttree") and op[3] in SHORTCUTS else None
+            thunk, coq, _ = execute7(w, op)
         except mut.NotLive:
             run.coq_ops.append("(OClear 999)")
             res = [1, mut.EMODEL]
@@ -403,7 +477,7 @@ def replay7(hist, *, check_from=0) -> mut.Run:
             sys.setrecursionlimit(_old)
         after = w.obs()
         step = dict(op=op, res=res, before=before, after=after, new_ids=list(range(alloc0 + 1, w.allocated() + 1)),
-                    new_trees=list(range(ntrees0, len(w.trees))), coq=coq)
+                    new_trees=list(range(ntrees0, len(w.trees))), coq=coq, plan=plan)
         run.obs.append([res, after])
         run.steps.append(step)
         kind = op[0] + (":" + H.ERR_NAMES.get(res[1], str(res[1])) if res[0] else "")
@@ -427,6 +501,25 @@ def replay7(hist, *, check_from=0) -> mut.Run:
     run.stats["_copies"] = ncopies
     run.stats["_pairs"] = npairs
     return run
+
+
+def shrink7(hist):
+    """smaller histories, also for the ops only this module knows: cut the tail, drop single ops that allocate nothing"""
+    ops = hist["ops"]
+    n = len(ops)
+    for cut in (n // 2, n - 1):
+        if 0 < cut < n:
+            yield dict(univ=hist["univ"], ops=ops[:cut])
+    special = any(o[0] in ("shortnode", "shorttree") for o in ops)
+    if not special:
+        yield from mut.shrink_candidates(dict(univ=hist["univ"], ops=ops))
+        return
+    r = replay7(hist)
+    for i in range(n - 1, -1, -1):
+        st = r.steps[i]
+        if ops[i][0] == "new" or st["new_ids"] or st.get("new_trees"):
+            continue
+        yield dict(univ=hist["univ"], ops=ops[:i] + ops[i + 1:])
 
 
 def run_group7(group):
@@ -524,6 +617,17 @@ def copy_alternatives(n, typed, full=True):
         for p in srcs:                            # a tree added below one of its own nodes
             alts.append(["addtree", 0, p, 0, None, deep])
     alts.append(["addtree", 0, 0, 1, {"n": 1} if n else None, None])     # the target tree into the source
+    # the four shortcuts with a node / a tree argument, on the nodes of the target tree and inside the source tree
+    for how in SHORTCUTS:
+        for tn in (x, z, y):
+            for src in srcs:
+                for deep in (None, True):
+                    alts.append(["shortnode", 1, tn, how, 0, src, deep])
+            for deep in (None, False):
+                alts.append(["shorttree", 1, tn, how, 0, deep])
+        for src in srcs:
+            for tn in srcs:
+                alts.append(["shortnode", 0, tn, how, 0, src, (src + tn) % 2 == 0])
     # Tree.copy / Node.copy
     alts.append(["treecopy", 0])
     alts.append(["treecopy", 1])
